@@ -141,3 +141,50 @@ Proof.
     destruct (getNode fixed (w_pa w) ix); cbn; split; auto; try discriminate.
 Qed.
 
+
+(* the constructor hands over a free lock *)
+Lemma init_free : forall i u, snd (impl_init fixed i) = Ok u -> w_locked (fst (impl_init fixed i)) = false.
+Proof.
+  intros i u. unfold impl_init, new_forkchoice.
+  set (w0 := mkW false _ _ _ _ _ _ _ _).
+  assert (Hnb : nb (SetPin_body (i_anchor_root i) (i_anchor_slot i))) by (unfold SetPin_body; wnb_auto).
+  assert (Hk : keeps (SetPin_body (i_anchor_root i) (i_anchor_slot i))) by (unfold SetPin_body; keeps_auto).
+  pose proof (locked_call_free _ w0 Hnb Hk eq_refl) as [Hp1 Hp2].
+  unfold mbind, W_SetPin.
+  destruct (locked_call (SetPin_body (i_anchor_root i) (i_anchor_slot i)) w0) as [w1 o1]. cbn in Hp1, Hp2.
+  destruct o1; cbn; try discriminate.
+  intros _. rewrite (updateJustified_keeps (i_fin i) (i_just i) (Some (i_bal i)) w1). apply Hp2. discriminate.
+Qed.
+
+(* C10 update_returns, the blocking half, for ALL histories: no call of any history ever blocks *)
+Lemma run_never_blocks : forall ops w, w_locked w = false ->
+  Forall (fun r => fst r <> Blocked) (impl_run fixed w ops).
+Proof.
+  induction ops as [|o ops IH]; intros w Hw; cbn [impl_run]; [constructor|].
+  pose proof (step_returns_free o w Hw) as [H1 H2].
+  destruct (impl_step fixed o w) as [w' r]. cbn in H1, H2.
+  destruct r; try (constructor; [cbn; discriminate | apply IH; apply H2; discriminate]);
+    try (constructor; [cbn; try discriminate; exact H1 | constructor]).
+Qed.
+
+(* C10 update_older_noop: an older-or-equal pair (by epochs) changes nothing at all, whatever trigger, roots, balances, sink *)
+Theorem update_older_noop : forall sink trigger j f bal w,
+  w_locked w = false -> fst j <= fst (w_just w) -> fst f <= fst (w_fin w) ->
+  W_UpdateJustified fixed sink trigger j f bal w = (w, Ok tt).
+Proof.
+  intros sink trigger j f bal w Hw Hj Hf.
+  unfold W_UpdateJustified, locked_call. rewrite Hw.
+  apply N.leb_le in Hj. apply N.leb_le in Hf.
+  destruct w as [lk pa vs bl pin ju fi spe lg]. cbn in Hw, Hj, Hf. subst lk.
+  unfold UpdateJustified_body, mbind, get, set_locked. cbn [w_just w_fin w_locked w_pa w_vs w_bal w_pin w_spe w_log].
+  match goal with |- context [if ?c then ret tt else _] =>
+    assert (E : c = true) by (apply andb_true_intro; split; assumption); rewrite E end.
+  reflexivity.
+Qed.
+
+(* what a refused update may have touched: only the array's best-child links were (possibly) refreshed *)
+Definition same_but_links (w w' : wrapper) : Prop :=
+  w_locked w' = w_locked w /\ w_vs w' = w_vs w /\ w_bal w' = w_bal w /\ w_pin w' = w_pin w /\
+  w_just w' = w_just w /\ w_fin w' = w_fin w /\ w_log w' = w_log w /\
+  pa_off (w_pa w') = pa_off (w_pa w) /\ pa_idx (w_pa w') = pa_idx (w_pa w) /\ pa_bs (w_pa w') = pa_bs (w_pa w) /\
+  length (pa_nodes (w_pa w')) = length (pa_nodes (w_pa w)).
